@@ -3,7 +3,24 @@ let show_found (f : found) = Printf.sprintf "%s:%s:%s:%d" (string_of_n f.f_start
 let parse_found s = match String.split_on_char ':' s with
   | [a; b; c; d] -> { f_start = n_of_string a; f_len = n_of_string b; f_addr = n_of_string c; f_nul = (d = "1") }
   | _ -> failwith "found"
+(* kind "big": len zero bytes with [text] at offset [at].  The zeros around the text are NUL terminators of empty runs,
+   which never qualify for thresholds >= 1, so the model is run on the window 00 text 00 00 placed at at-1 and its
+   offsets are shifted back (the theorem C20_enumerate is about the whole buffer; this is its evaluation on a sparse one) *)
+let handle_big fs obs =
+  if obs = "!nomem" then (obs, true, false, "skipped-nomem", None) else
+  let text = nlist_of_hex (field fs "text") in
+  let at = n_of_string (field fs "at") in
+  let c = { min_len = n_of_string (field fs "min"); min_len_nul = n_of_string (field fs "minnul"); strict = (field fs "strict" = "1") } in
+  let base = n_of_string (field fs "base") in
+  let shift = Z.pred (z_of_n at) in
+  let window = (n_of_int 0) :: (text @ [n_of_int 0; n_of_int 0]) in
+  let wbase = n_of_z (Z.rem (Z.add (z_of_n base) shift) (Z.shift_left Z.one 32)) in
+  let spec = enumerate_spec c wbase window in
+  let show (f : found) = Printf.sprintf "%s:%s:%s:%d" (Z.to_string (Z.add (z_of_n f.f_start) shift)) (string_of_n f.f_len) (string_of_n f.f_addr) (if f.f_nul then 1 else 0) in
+  let mobs = Printf.sprintf "found=%s again=none" (join "," (List.map show spec)) in
+  (mobs, mobs = obs, true, "big", None)
 let handle kind fs obs =
+  if kind = "big" then handle_big fs obs else
   if kind <> "strings" then ("!unknown-kind", false, false, "unknown", None) else
   let bytes = nlist_of_hex (field fs "data") in
   let c = { min_len = n_of_string (field fs "min"); min_len_nul = n_of_string (field fs "minnul"); strict = (field fs "strict" = "1") } in
